@@ -21,13 +21,14 @@ RULE = ("FilterConv: random 2-D/3-D grids (incl. one-element-wide), all 6 bounda
         "exhaustive boundary-mode combinations on small grids (5^4 in 2-D, 4^6 in 3-D; thorough tier, sampled in quick); "
         "DensityFilter: radii 0.3..3x the domain, optional nonpadding; malformed: even kernels, wrong vector lengths. "
         "distinct = distinct case keys (configuration + data)")
+FINDING_KEY = "filterconv-wide-pad-mixed-modes"
 ASSUMPTIONS = [
     "boundary modes are from the documented set {'symmetric', 'edge', 'wrap', real number}; radius > 0",
     "np.pad closed forms (reflection with period 2n, clamping, modulo) are model assumptions about numpy, validated here for pad widths up to 3x the array",
     "sqrt in the model is a rational approximation with absolute error < 1e-40; radius kernels / DensityFilter are compared with tolerance 1e-9",
-    "the direct oracle of the padded-convolution formula is applied only where _process_padding yields the per-face rule "
-    "(pad <= array size, or mode pairs other than (symmetric, non-symmetric) / (wrap, symmetric)) and not for 3-D kernels on 2-D domains; "
-    "the model follows the code on those inputs too (see report: pending defect scripts in corpus/defects/pending/)",
+    "open known finding filterconv-wide-pad-mixed-modes: for pad > array size with the mode pairs (symmetric, non-symmetric) / "
+    "(wrap, symmetric) on an axis the real code deviates from the padded-convolution formula (each face extended by ITS rule applied "
+    "to the field itself); such deviations are tagged with the finding key, the model follows the code there",
 ]
 
 BCN = ['xmin_bc', 'xmax_bc', 'ymin_bc', 'ymax_bc', 'zmin_bc', 'zmax_bc']
@@ -148,14 +149,13 @@ def axis_clean(e0, e1, n, p):
     return True
 
 
-def formula_applicable(spec, kshape):
+def has_nonclean_axis(spec, kshape):
+    """True iff some axis has pad > size with a mode pair of the open finding `filterconv-wide-pad-mixed-modes`"""
     nelx, nely, nelz = spec["dom"]
     n = [nelx, nely, max(nelz, 1)]
     p = [k // 2 for k in kshape]
-    if nelz == 0 and kshape[2] != 1:
-        return False
     bc = spec["bc"]
-    return all(axis_clean(bc[2 * a], bc[2 * a + 1], n[a], p[a]) for a in range(3))
+    return not all(axis_clean(bc[2 * a], bc[2 * a + 1], n[a], p[a]) for a in range(3))
 
 
 def brute_conv(spec, w):
@@ -273,7 +273,7 @@ def oracle_common(m, spec, y, tol, nonneg_sum_one, no_const, jac=True):
 
 
 def oracle_conv(spec, m=None, exact=False):
-    """the property on the real FilterConv; returns failure text or None"""
+    """the property on the real FilterConv; returns (failure text or None, known-finding key or None)"""
     if m is None:
         m, _ = build_conv(spec)
     tol = 1e-12 if exact else 1e-9
@@ -281,31 +281,33 @@ def oracle_conv(spec, m=None, exact=False):
     y = _run(m, x)
     w = np.asarray(m.weights, dtype=float)
     bc = spec["bc"]
-    applicable = formula_applicable(spec, w.shape)
     sc = max(1.0, np.abs(x).max()) * max(1.0, np.abs(w).sum())
-    if applicable:
-        yb = np.array(brute_conv(spec, w))
-        if not (np.abs(yb - y).max() <= tol * sc):
-            e = int(np.nan_to_num(np.abs(yb - y), nan=np.inf).argmax())
-            return f"output[{e}] = {y[e]!r} but the padded convolution formula gives {yb[e]!r}"
+    # the defining formula, per the property's reading: each face extended by ITS rule applied to the field itself
+    yb = np.array(brute_conv(spec, w))
+    if not (np.abs(yb - y).max() <= tol * sc):
+        e = int(np.nan_to_num(np.abs(yb - y), nan=np.inf).argmax())
+        why = f"output[{e}] = {y[e]!r} but the padded convolution formula gives {yb[e]!r}"
+        if has_nonclean_axis(spec, w.shape):
+            return why + " (pad wider than the array with mixed boundary modes on an axis)", FINDING_KEY
+        return why, None
     no_const = all(isinstance(b, str) for b in bc) and not spec.get("ov")
     nonneg_sum_one = bool(w.min() >= 0.0) and abs(w.sum() - 1.0) <= 1e-12
     if spec.get("weights") is None:
         # "as every radius kernel does": non-negative, sums to one, mirror-symmetric in every axis
         if not nonneg_sum_one:
-            return f"radius kernel is not a non-negative kernel summing to one: min {w.min()!r}, sum {w.sum()!r}"
+            return f"radius kernel is not a non-negative kernel summing to one: min {w.min()!r}, sum {w.sum()!r}", None
         if not all(np.abs(w - np.flip(w, axis=a)).max() <= 1e-15 for a in range(3)):
-            return "radius kernel is not mirror-symmetric"
+            return "radius kernel is not mirror-symmetric", None
     why = oracle_common(m, spec, y, tol, nonneg_sum_one, no_const)
     if why:
-        return why
+        return why, None
     # volume: symmetric padding everywhere + kernel mirror-symmetric in every axis  =>  sum y = sum(w) * sum x
     if all(b == 'symmetric' for b in bc) and not spec.get("ov"):
         msym = all(np.abs(w - np.flip(w, axis=a)).max() <= 1e-15 for a in range(3))
         if msym:
             if not (abs(y.sum() - w.sum() * x.sum()) <= tol * sc * len(x)):
-                return f"volume not preserved: sum y = {y.sum()!r}, sum(w)*sum x = {(w.sum() * x.sum())!r}"
-    return None
+                return f"volume not preserved: sum y = {y.sum()!r}, sum(w)*sum x = {(w.sum() * x.sum())!r}", None
+    return None, None
 
 
 def oracle_dens(spec, m=None):
@@ -369,7 +371,7 @@ def gen_pad(rng, n):
 def gen_kernel(rng, dom, kind):
     n = [dom[0], dom[1], max(dom[2], 1)]
     for _ in range(50):
-        p = [gen_pad(rng, n[0]), gen_pad(rng, n[1]), gen_pad(rng, n[2]) if dom[2] > 0 else (1 if rng.random() < 0.1 else 0)]
+        p = [gen_pad(rng, n[0]), gen_pad(rng, n[1]), gen_pad(rng, n[2]) if dom[2] > 0 or rng.random() < 0.3 else 0]
         K = [2 * v + 1 for v in p]
         if K[0] * K[1] * K[2] * n[0] * n[1] * n[2] <= 6000:
             break
@@ -470,10 +472,12 @@ def run_conv_cases(ctx, stream, specs, exact, oracle_every=1):
         if exact and not ex:
             ctx.branch("conv.fft_fallback_tolerance")
         if t % oracle_every == 0:
-            why = oracle_conv(spec, m, exact=ex)
+            why, fkey = oracle_conv(spec, m, exact=ex)
             if why:
-                ctx.oracle_fail(why, {"op": "conv", **spec})
-            ctx.branch("oracle.conv.formula" if formula_applicable(spec, out["k"]) else "oracle.conv.formula_not_applicable")
+                ctx.oracle_fail(why, {"op": "conv", **spec}, key=fkey)
+                if fkey:
+                    ctx.branch("oracle.conv.known_finding_deviation")
+            ctx.branch("oracle.conv.formula_nonclean_axis" if has_nonclean_axis(spec, out["k"]) else "oracle.conv.formula")
         reqs.append(req_conv(spec))
         outs.append((spec, out, ex))
         nelx, nely, nelz = spec["dom"]
@@ -573,6 +577,9 @@ def correspondence(ctx):
         combos.append(([2, 2, 2], [3, 3, 3], list(bc6)))
     for bc6 in itertools.product(['symmetric', 'edge', 'wrap'], repeat=6):
         combos.append(([1, 2, 1], [3, 5, 5], list(bc6)))
+    for bcx in itertools.product(m5, repeat=2):       # 3-D kernel on a 2-D domain: x and z faces
+        for bcz in itertools.product(m5, repeat=2):
+            combos.append(([2, 1, 0], [3, 1, 3], list(bcx) + ['symmetric', 'symmetric'] + list(bcz)))
     if quick:
         combos = rng.sample(combos, 90)
     specs = []
@@ -711,13 +718,20 @@ def correspondence(ctx):
 # search / replay
 # ----------------------------------------------------------------------------------------------
 def _oracle_spec(spec):
+    """returns (failure text or None, known-finding key or None)"""
     if spec.get("kind") == "dens":
         r = call_impl(oracle_dens, spec)
-    else:
-        r = call_impl(oracle_conv, spec)
+        if r[0] == "err":
+            return f"raises {r[2]}", None
+        return r[1], None
+    r = call_impl(oracle_conv, spec)
     if r[0] == "err":
-        return f"raises {r[2]}"
+        return f"raises {r[2]}", None
     return r[1]
+
+
+def _witness(why, fkey, spec):
+    return {"what": why, "witness": {"op": spec.get("kind", "conv"), **spec}, "finding_key": fkey}
 
 
 def search(ctx, disagreements):
@@ -728,12 +742,12 @@ def search(ctx, disagreements):
         if not isinstance(spec, dict) or "dom" not in spec or dct.get("stream") == "malformed":
             continue
         seen += 1
-        why = _oracle_spec(spec)
+        why, fkey = _oracle_spec(spec)
         if why:
-            found.append({"what": why, "witness": {"op": spec.get("kind", "conv"), **spec}})
-        if len(found) >= 3 or seen > 30:
+            found.append(_witness(why, fkey, spec))
+        if len([f for f in found if not f["finding_key"]]) >= 3 or seen > 30:
             break
-    if not found:
+    if not [f for f in found if not f["finding_key"]]:
         # sweep: small grids, all-symmetric / mixed modes, radius and dyadic kernels
         rng = ctx.rng
         for t in range(150):
@@ -749,12 +763,12 @@ def search(ctx, disagreements):
                 w = gen_kernel(rng, dom, ["general", "sumone", "mirror"][t % 9 // 3])
                 spec = {"kind": "conv", "dom": dom, "bc": ['symmetric'] * 6 if t % 2 else [gen_mode(rng) for _ in range(6)],
                         "weights": w.tolist(), "x": gen_field(rng, nel), "g": gen_field(rng, nel), "ov": []}
-            why = _oracle_spec(spec)
+            why, fkey = _oracle_spec(spec)
             if why:
-                found.append({"what": why, "witness": {"op": spec["kind"], **spec}})
-                if len(found) >= 3:
+                found.append(_witness(why, fkey, spec))
+                if len([f for f in found if not f["finding_key"]]) >= 3:
                     break
-    found.sort(key=lambda w: len(str(w["witness"])))
+    found.sort(key=lambda w: (bool(w["finding_key"]), len(str(w["witness"]))))
     return found
 
 
@@ -765,5 +779,23 @@ def replay(ctx, data):
         return {"still_failing": False, "note": "replay file names no failing input (see no_longer_checks)"}
     spec = dict(w)
     spec["kind"] = "dens" if w.get("op") == "dens" or w.get("kind") == "dens" else "conv"
-    why = _oracle_spec(spec)
-    return {"still_failing": bool(why), "what": why}
+    why, fkey = _oracle_spec(spec)
+    return {"still_failing": bool(why), "what": why, "known_finding": fkey}
+
+
+# ----------------------------------------------------------------------------------------------
+# open known findings
+# ----------------------------------------------------------------------------------------------
+FINDING_WITNESS = {"kind": "conv", "dom": [2, 1, 0], "bc": ['symmetric', 7.0, 'symmetric', 'symmetric', 'symmetric', 'symmetric'],
+                   "weights": [[0.0], [0.0], [0.0], [0.0], [0.0], [0.0], [1.0]], "x": [3.0, 5.0], "g": [1.0, 0.0], "ov": []}
+
+
+def probe_wide_pad_mixed_modes(ctx):
+    """replays the witness of corpus/defects/pending/c09_sym_const_wide_pad.py on the real code"""
+    why, fkey = oracle_conv(FINDING_WITNESS)
+    if why and fkey == FINDING_KEY:
+        return "witness 2x1 domain, 7x1 kernel, xmin symmetric, xmax 7.0: " + why
+    return None
+
+
+FINDING_PROBES = {FINDING_KEY: probe_wide_pad_mixed_modes}
